@@ -486,6 +486,55 @@ def semEinsum (ins : List (List Char)) (outL contracted : List Char) (csizes out
     (foldOp "add" ((allIdx csizes).map fun asg =>
       prodXR ((vals.zip ins).map (charRead (outL ++ contracted) (oi ++ asg))))).getD XR.nan⟩
 
+/-! ### Output-axis reductions with an arbitrary aggregate (mean, std, var, logsumexp, any, all, …)
+
+  `Sem.reduceAxes` (Model/Term.lean) folds an associative op; the remaining reduction ops of
+  ops/array.py are not folds.  Here the aggregate `agg : List XR → XR` (what numpy computes from the
+  entries of one reduced block, in row-major order) is a PARAMETER; the bookkeeping — which entries form a
+  block, negative axes in the batched branch, the scalar branch (`unsqueeze(-1)` then reduce that axis:
+  the block is the ONE-element collection `[x]`) — is modelled and proved for every `agg`. -/
+
+def reduceAxesWith (agg : List XR → XR) (s : Sem) (axes : Option (List Int)) (keepdims : Bool) : Option Sem :=
+  let rank := s.shape.length
+  let axs? : Option (List Nat) := match axes with
+    | none => some (List.range rank)
+    | some l => l.mapM (normAxis rank)
+  match axs? with
+  | none => none
+  | some axs =>
+    let keepMask := (List.range rank).map (fun d => !axs.contains d)
+    let outShape := (s.shape.zip keepMask).filterMap (fun (d, k) => if k then some d else if keepdims then some 1 else none)
+    let redShape := (s.shape.zip keepMask).filterMap (fun (d, k) => if k then none else some d)
+    let build (oi ri : List Nat) : List Nat :=
+      let oi' := if keepdims then (oi.zip keepMask).filterMap (fun (i, k) => if k then some i else none) else oi
+      let rec go : List Bool → List Nat → List Nat → List Nat
+        | [], _, _ => []
+        | true :: ms, o :: os, rs => o :: go ms os rs
+        | false :: ms, os, r :: rs => r :: go ms os rs
+        | _ :: _, _, _ => []
+      go keepMask oi' ri
+    some ⟨outShape, fun oi => agg ((allIdx redShape).map (fun ri => s.get (build oi ri)))⟩
+
+/-- eager_reduction_tensor for an arbitrary reduction op (same three branches as `reductionAxis`). -/
+def reductionAxisWith (agg : List XR → XR) (axes : Option (List Int)) (keep : Bool) (a : NT) : Option NT :=
+  if a.shape.isEmpty then
+    match axes with
+    | none => mapRows (fun s => reduceAxesWith agg s none keep) a
+    | some _ => none
+  else if a.inputs.isEmpty then
+    mapRows (fun s => reduceAxesWith agg s axes keep) a
+  else
+    match axes with
+    | none => mapRows (fun s => reduceAxesWith agg s none keep) a
+    | some l =>
+      if l.all (axisValid a.shape.length) then
+        mapRows (fun s => reduceAxesWith agg s (some (l.map (negAxis a.shape.length))) keep) a
+      else none
+
+/-- numpy `any` / `all` as aggregates: truth values, whatever the data. -/
+def aggAny (l : List XR) : XR := boolXR (l.any XR.truthy)
+def aggAll (l : List XR) : XR := boolXR (l.all XR.truthy)
+
 /-! ### The partial evaluator: eager interpretation on ground terms
 
   `peval t` applies, bottom-up, the eager rule that dispatch selects when every operand is already a
